@@ -113,7 +113,7 @@ class Session:
 
 
 def run_session(raw, script, data_file, argv=(), scheduler="batch", build_script=None, exp_name=None,
-                run_filter=None, seed=None, validate=False, cli_reporter=None, start_key=None, on_runs=None):
+                run_filter=None, seed=None, validate=False, cli_reporter=None, start_key=None, on_runs=None, config_dir=None):
     """script(bench, nth_start, inv) -> (rc, output) | raises OSError
        build_script(text, cwd) -> (rc, stdout, stderr) | raises OSError"""
     ses = Session()
@@ -162,7 +162,7 @@ def run_session(raw, script, data_file, argv=(), scheduler="batch", build_script
             if on_runs is not None:
                 on_runs(runs)
             ex = Executor(runs, cnf.do_builds, ui, opts.include_faulty, False, SCHEDULERS[scheduler],
-                          None, False, False, False, opts.execution_plan, None)
+                          None, False, False, False, opts.execution_plan, config_dir)
             ses.result = ex.execute()
             ses.exit = 0 if ses.result else 1
             for r in runs:
